@@ -223,7 +223,7 @@ theorem coroutine_error_disables (m : Method) (hm : m.effect = .coroutine) (o : 
   unfold callMethodChecked at *
   simp only [Bool.false_eq_true, ↓reduceIte, hb] at *
   split
-  · rfl
+  · simp [hm]
   · simp only [hm, beq_self_eq_true, ↓reduceIte] at *
     split
     · rfl
@@ -237,7 +237,8 @@ non-coroutine that uses an io argument. (Status-returning methods without one, s
 or `restart_frame!`, return their error without disabling the object.) -/
 theorem statusvar_error_disables (m : Method) (hm : m.effect ≠ .coroutine)
     (hs : m.hasStatusVar = true) (o : Obj) (args : List ArgVal) (b : BodyRes)
-    (hmb : magicBad m o = false) (herr : b.st.isError = true) :
+    (hmb : magicBad m o = false) (hargs : argsBad m.args args = false)
+    (herr : b.st.isError = true) :
     (callMethod m o false args b).1.magic = DISABLED := by
   have hc : (m.effect == Effect.coroutine) = false := by simpa using hm
   have hr : m.returnsStatus = true := by
@@ -246,23 +247,21 @@ theorem statusvar_error_disables (m : Method) (hm : m.effect ≠ .coroutine)
     exact hs.1
   rw [callMethod_checked _ _ _ _ _ (skips_false_of_returnsStatus m hr)]
   unfold callMethodChecked
-  simp only [Bool.false_eq_true, ↓reduceIte, hmb, hc, hs]
-  split
-  · rfl
-  · simp [epilogue, herr]
+  simp [hmb, hc, hs, hargs, epilogue, herr]
 
-/-- A rejected argument (NULL for an io/`ptr` parameter, a number outside its refinement) of ANY public
-method with a prologue disables the object; status-returning methods answer `#bad argument`
+/-- A rejected argument (NULL for an io/`ptr` parameter, a number outside its refinement) of any
+non-pure public method with a prologue disables the object; status-returning methods answer `#bad argument`
 (the code as repaired by fixes/C11-cgen-argcheck-return-type.patch), the others return a zero value. -/
-theorem bad_argument_disables (m : Method) (hsk : m.skipsPrologue = false) (o : Obj)
-    (hmb : magicBad m o = false) (args : List ArgVal) (hbad : argsBad m.args args = true)
+theorem bad_argument_disables (m : Method) (hsk : m.skipsPrologue = false) (hnp : m.effect ≠ .pure)
+    (o : Obj) (hmb : magicBad m o = false) (args : List ArgVal) (hbad : argsBad m.args args = true)
     (b : BodyRes) :
     callMethod m o false args b =
       ({ o with magic := DISABLED },
         if m.returnsStatus then .st (.err .badArgument) else .zero) := by
   rw [callMethod_checked _ _ _ _ _ hsk]
   unfold callMethodChecked
-  simp [hmb, hbad, argFailRet]
+  have : (m.effect == Effect.pure) = false := by simpa using hnp
+  simp [hmb, hbad, argFailRet, this]
 
 theorem callMethod_disabled (m : Method) (o : Obj) (sn : Bool) (args : List ArgVal) (b : BodyRes)
     (hd : o.magic = DISABLED) :
@@ -286,7 +285,7 @@ theorem callMethod_disabled (m : Method) (o : Obj) (sn : Bool) (args : List ArgV
       simp only [Bool.false_eq_true, ↓reduceIte, hb, hc]
       constructor
       · split
-        · rfl
+        · simp [hp, hd]
         · split
           · simp only [epilogue]; split <;> simp [hd]
           · exact hd
